@@ -86,6 +86,10 @@ func genTFOps(r *simrt.RNG, actor, n, nids int, uniq *int, children bool) []TFOp
 		if r.Bool(0.5) {
 			op.SleepMs = 1 + r.Intn(4000)
 		}
+		if op.Kind != "create" && op.Kind != "child+" && r.Bool(0.2) {
+			op.After = []string{"out-td", "in-td", "out-created", "out-destroyed", "in-released"}[r.Intn(5)]
+			op.SleepMs = 0
+		}
 		ops = append(ops, op)
 	}
 	return ops
@@ -128,7 +132,7 @@ func genTF(prop string, seed uint64, tier string) *TFCase {
 		if c.Flavour == "transform" {
 			c.InputFinalizers, c.IgnoreTD = true, false
 		}
-		c.Cleanup = []string{"", "remove", "hasno", "combine"}[r.Pick([]int{2, 3, 2, 2})]
+		c.Cleanup = []string{"", "remove", "hasno", "combine", "combine-rev"}[r.Pick([]int{2, 3, 2, 2, 2})]
 	}
 	if r.Bool(0.5) {
 		c.TransformMs = 1 + r.Intn(2500)
@@ -249,6 +253,17 @@ func runTF(t *testing.T, cs Case, trace bool, prop string) *Outcome {
 			return
 		}
 		tw := &tfWorld{RuntimeWorld: rw, c: c, out: out}
+		prevA := map[string]Snap{}
+		rw.onCommit = func(cm Commit) {
+			tw.fire(cm, prevA)
+			if cm.Type == TypeA {
+				if cm.Kind == "put" {
+					prevA[cm.ID] = cm.Snap
+				} else {
+					delete(prevA, cm.ID)
+				}
+			}
+		}
 		ctx, cancel := context.WithCancel(context.Background())
 		defer cancel()
 		s.Spawn("pre", func() {
